@@ -246,7 +246,7 @@ PROPS = {
     "C04": {
         "level": "proof",
         "level_prefix": "Partial proof -- contracts discharged without bound on the mechanisms named below, not the whole statement (bounded stand-ins and what is left out are listed): ",
-        "units": ["nameorder", "nsec3order", "rdbin", "rdnames"],
+        "units": ["nameorder", "nsec3order", "rdbin", "rdnames", "namehash"],
         "vx_search": {"bin": "c04_search_small_values", "crate": "replay", "release": True,
                       "what": "about 15000 pairs/triples of small names (57 names of up to two labels over a,A,b,[,NUL,ab,aB) and of small "
                               "Nsec, Nsec3, Nsec3param, Rrsig, Dnskey, Ds, Zonemd, Svcb, Mx, Srv and unknown record data values, checked "
@@ -327,13 +327,17 @@ PROPS = {
                        "agree and order by the fields with names in the RFC 4034 6.1 order; canonical_cmp == octet order of the canonical "
                        "RDATA (integers big-endian, names lower-cased in wire form; for SOA this needs that wire-form names are prefix-free: "
                        "lemma_abs_concat). "
+                       "Hashing (unit namehash, real text of Hash for Label, Name, RelativeName and ParsedName, names of every length, any "
+                       "hasher): what reaches the hasher is the label's length octet and its octets lower-cased, label after label -- exactly the "
+                       "canonical wire form of the name; lemma_equal_names_hash_alike: names that are equal (label-wise up to case) feed any hasher "
+                       "the same octets, across representations. "
                        "Laws proved over the reference definitions the code is tied to: the name order is antisymmetric, "
                        "transitive, and Equal exactly on names that are name_eq (so order, equality and representation cannot "
                        "disagree). Labels, records (Kani on the compiled generic code, whose comparison code is written with "
                        "iterator adapters outside Verus): label order, equality and hash coherence and the RFC 4034 label order, "
                        "complete up to the 63-octet limit in the thorough tier; Record Eq/Hash coherence over all classes, TTLs "
                        "and A data.",
-        "not_covered": "Hash for names beyond the bounded harness (for-loop over a label iterator, outside Verus), the relative-name versions "
+        "not_covered": "The relative-name versions of the comparison methods "
                        "(ToRelativeName), the iterators themselves (iter_labels/as_flat_slice of Name, ParsedName, Chain are assumed "
                        "to enumerate labels() -- ParsedName's iterator is under contract in C01's unit nameparse), CharStr, canonical "
                        "ordering of record data of the other types versus canonical wire form (macro-generated per type), Eq/Ord/Hash of Record beyond "
@@ -346,6 +350,7 @@ PROPS = {
             "Nsec3HashAlgorithm (int_enum! macro over u8) is modelled as an octet with the integer's Eq/Ord; Nsec3Salt/OwnerHash are at most 255 octets (their constructors' invariant)",
             "Timestamp::{partial_cmp, canonical_cmp, into_int} (under contract in unit serial, C17), Rtype/SecurityAlgorithm/Ttl as integers",
             "Iterator::eq over label iterators with PartialEq for Label: element-wise ci equality and same number of elements",
+            "unit namehash: core's Hash for u8 writes the octet (write_u8); Label::iter() (slice iter + copied) and the label iterators of Name / RelativeName / ParsedName are cursors over the octets / labels in order (ParsedNameIter: unit nameparse)",
             "ToName implementors: iter_labels() enumerates labels(), as_flat_slice() (when Some) is the concatenated wire form of labels(); labels are at most 63 octets; absolute names end with the only empty label (C03)",
         ],
     },
